@@ -60,3 +60,19 @@ func VerifHooksWithInvalidations(h PubSubHooks, fn func([]RedisMessage)) PubSubH
 
 // VerifBuilder returns a command builder that is not bound to a client.
 func VerifBuilder() Builder { return cmds.NewBuilder(cmds.NoSlot) }
+
+// VerifSpoolStats reports the bookkeeping of the pool that serves DoStream / DoMultiStream of a single client:
+// the number of wires the pool accounts for and the length of its idle list.
+func VerifSpoolStats(c Client) (size, idle int, ok bool) {
+	sc, ok := c.(*singleClient)
+	if !ok {
+		return 0, 0, false
+	}
+	m, ok := sc.conn.(*mux)
+	if !ok {
+		return 0, 0, false
+	}
+	m.spool.cond.L.Lock()
+	defer m.spool.cond.L.Unlock()
+	return m.spool.size, len(m.spool.list), true
+}
